@@ -64,7 +64,7 @@ Blockers == <<
   <<"pdbZeroOtherNs", "pdb">>,
   <<"notConsolidatable", "cons">>, <<"consolidatableEdge", "cons">>, <<"consolidatableFalse", "cons">>,
   <<"poolKindFlip", "poolKind">>, <<"caNever", "ca">>, <<"caNeverStale", "ca">>, <<"whenEmpty", "policy">>, <<"buffer", "buffer">>,
-  <<"notDrifted", "drift">>, <<"tgp", "tgp">> >>
+  <<"notDrifted", "drift">>, <<"tgp", "tgp">>, <<"poolTgp", "poolTgp">> >>
 Name(i) == Blockers[i][1]
 Group(i) == Blockers[i][2]
 \* blockers the environment can put on X while a command waits for validation
@@ -110,6 +110,7 @@ Apply(b, vv, t) ==
       [] b = "buffer"             -> [vv EXCEPT !.buffer = 1]
       [] b = "notDrifted"         -> [vv EXCEPT !.drifted = "Absent"]
       [] b = "tgp"                -> [vv EXCEPT !.tgp = vv.managed]
+      [] b = "poolTgp"            -> vv       \* only the pool template has a terminationGracePeriod: the NodeClaim's counts
 
 \* ---------------------------------------------------------------- the controller's rule (with spec mutations)
 HoldsW(c, mm, vv, t) ==
@@ -128,7 +129,7 @@ Init == /\ m \in Methods /\ pre = <<>> /\ churn = <<>> /\ v = Base(m) /\ now = T
 LastIdx == IF pre = <<>> THEN 0 ELSE pre[Len(pre)]
 Block(i) == /\ phase = "config" /\ Len(pre) < MaxPre /\ i > LastIdx
             /\ \A j \in DOMAIN pre : Group(pre[j]) # Group(i)
-            /\ (Len(pre) >= 1 => (PairMode = "all" \/ Name(i) = "tgp"))
+            /\ (Len(pre) >= 1 => (PairMode = "all" \/ Name(i) \in {"tgp", "poolTgp"}))
             /\ pre' = Append(pre, i) /\ v' = Apply(Name(i), v, now)
             /\ UNCHANGED <<m, churn, now, phase, cmds>>
 
